@@ -36,6 +36,10 @@ def c06(holder, stmt_holders, live):
     reads = set()
     for h in stmt_holders:
         reads |= set(h.read)
+        # a table the script read and then renamed has been read under its new name as well
+        for old, new in (getattr(h, "rename_in_order", None) or sorted(h.rename, key=str)):
+            if old in reads:
+                reads.add(new)
     for p in live.get("paths", []):
         cnt["paths"] += 1
         desc = " <- ".join(taps.coldesc(c) for c in reversed(p))
